@@ -265,9 +265,9 @@ func operatorBody(c *mc.Ctx) {
 				var spec string
 				switch i % 4 {
 				case 0:
-					spec = fmt.Sprintf("P|n|k|v%d", step)
+					spec = fmt.Sprintf("P|n|m|v%d", step) // n/m and nm/"" concatenate to the same bytes
 				case 1:
-					spec = "D|n|k"
+					spec = "D|n|m"
 				case 2:
 					spec = fmt.Sprintf("P|nm||%s", []string{"", "w"}[step%2]) // empty entry key, sometimes an empty value
 				case 3:
